@@ -472,9 +472,19 @@ def project_saved(raw: bytes, st: D.SegTable, live_prs, pptx_mod, mem_types) -> 
     return z
 
 
-def run_history(hid: str, h: list[dict], final_saved: bool = True, facets_on: bool = True) -> dict:
+def run_history(hid: str, h: list[dict], final_saved: bool = True, facets_on: bool = True, companion: bool = False) -> dict:
     """Replay history h (h[0] = open action with the initial deck) and record obs after every step; every
     'save'/'reopen' action and the end of the history yield a saved-package projection."""
+    # THE COMPANION: a second presentation lives in the same process.  It stores an image of its own before the history starts and,
+    # after the history, the three images the history's pictures rotate through and core properties - then it is
+    # saved and judged by the same saved-package clauses as any other deck (nothing one presentation did may reach another one)
+    comp = DeckRun({"deck": "default", "pnums": [], "sids": [], "ids": [], "lays": []}) if companion else None
+    try:
+        if comp is not None:
+            cs = comp.prs.slides.add_slide(comp.prs.slide_layouts[6])
+            cs.shapes.add_picture(io.BytesIO(image_bytes(9)), 1000, 1000)
+    except Exception:       # noqa: BLE001  (judged at the end: the companion's save)
+        pass
     run = DeckRun(h[0]["init"])
     st = D.LazySegTable()
     steps = [{"a": {"op": "open", "k": 0, "j": 0, "kind": "", "l": 0}, "out": "ok", "t": run.observe()}]
@@ -503,4 +513,15 @@ def run_history(hid: str, h: list[dict], final_saved: bool = True, facets_on: bo
             saves.append({"at": len(h) + 1, "z": run.saved(st, facets_on)})
         except Exception as e:
             saves.append({"at": len(h) + 1, "z": None, "err": "%s: %s" % (type(e).__name__, str(e)[:200])})
+        if comp is None:
+            return {"id": hid, "h": h, "steps": steps, "saves": saves}
+        try:
+            for k_, a_ in enumerate(({"op": "addShape", "k": 1, "kind": "picture", "j": 2}, {"op": "addShape", "k": 1, "kind": "picture", "j": 3},
+                                     {"op": "addShape", "k": 1, "kind": "picture", "j": 1}, {"op": "coreProps"})):
+                o_ = comp.apply(a_)
+                if o_ not in ("ok", "", None):
+                    raise RuntimeError("companion %s: %s" % (a_["op"], o_))
+            saves.append({"at": len(h) + 2, "z": comp.saved(st, facets_on)})
+        except Exception as e:
+            saves.append({"at": len(h) + 2, "z": None, "err": "companion: %s: %s" % (type(e).__name__, str(e)[:200])})
     return {"id": hid, "h": h, "steps": steps, "saves": saves}
